@@ -35,10 +35,19 @@ struct ReplyWaiter {
 #[derive(Default)]
 struct Listeners {
     #[cfg(not(trusttunnel_verif))]
-    reply_waiters: HashMap<icmp_utils::Echo, ReplyWaiter>,
+    reply_waiters: HashMap<WaiterKey, ReplyWaiter>,
     #[cfg(trusttunnel_verif)]
-    reply_waiters: HashMap<icmp_utils::Echo, ReplyWaiter, crate::verif::hash::SeededState>,
-    deadlines: BTreeMap<Instant, LinkedList<icmp_utils::Echo>>,
+    reply_waiters: HashMap<WaiterKey, ReplyWaiter, crate::verif::hash::SeededState>,
+    deadlines: BTreeMap<Instant, LinkedList<WaiterKey>>,
+}
+
+/// An ICMP and an ICMPv6 echo request are different requests even if all their fields are equal
+type WaiterKey = (IcmpFamily, icmp_utils::Echo);
+
+#[derive(Debug, Clone, Copy, PartialEq, Eq, Hash)]
+enum IcmpFamily {
+    V4,
+    V6,
 }
 
 #[derive(Default)]
@@ -135,6 +144,13 @@ impl IcmpForwarder {
                 Some(x) => x,
             };
 
+            let request = (
+                match reply {
+                    icmp_utils::Message::V4(_) => IcmpFamily::V4,
+                    icmp_utils::Message::V6(_) => IcmpFamily::V6,
+                },
+                request,
+            );
             let mut listeners = self.shared.listeners.lock().unwrap();
             match listeners.reply_waiters.get(&request) {
                 None => {
@@ -366,6 +382,14 @@ impl datagram_pipe::Sink for IcmpSink {
                 .as_ref()
                 .unwrap()
                 .request_timeout;
+        let echo = (
+            if datagram.meta.peer.is_ipv4() {
+                IcmpFamily::V4
+            } else {
+                IcmpFamily::V6
+            },
+            echo.clone(),
+        );
         let mut listeners = forwarder_shared.listeners.lock().unwrap();
         listeners.reply_waiters.insert(
             echo.clone(),
